@@ -1,5 +1,6 @@
 SPECIFICATION Spec
 CONSTANTS
   Menus <- MenusGenQ
+  FixSign = TRUE
 INVARIANTS Emit
 CHECK_DEADLOCK FALSE
